@@ -47,12 +47,12 @@ example : serialize 5 [.lit 2, .bang, .nrun 6, .mtch (-1) (some 5), .mtch 0 none
     and `findBest_sound`); termination is by the measure `target.len() - i` in the definition of
     `encLoop` itself. -/
 theorem encode_inv (S : UInt64 → List Nat) (mm : Nat) (hmm : lzHashingStep ≤ mm) (refP : Array Nat)
-    (refLen : Nat) (t : Array Nat) (i pred npl : Nat) (toks : List Tok) (esz : Nat) (xprev : Option UInt64)
+    (refLen : Nat) (t : Array Nat) (i pred npl : Nat) (toks : List Tok) (xprev : Option UInt64)
     (res : List Tok)
     (hinv : Inv refP refLen t i pred npl toks)
-    (hres : encLoop S mm hmm refP refLen t i pred npl toks esz xprev = some res) :
+    (hres : encLoop S mm hmm refP refLen t i pred npl toks xprev = some res) :
     ∃ p, decToks refP refLen res.reverse ([], 0) = some (t.toList, p) :=
-  encLoop_decodes S mm hmm refP refLen t i pred npl toks esz xprev res hinv hres
+  encLoop_decodes S mm hmm refP refLen t i pred npl toks xprev res hinv hres
 
 /-- The initial state satisfies the invariant. -/
 theorem inv_init (refP : Array Nat) (refLen : Nat) (t : Array Nat) : Inv refP refLen t 0 0 0 [] := by
@@ -81,17 +81,17 @@ theorem encodeToks_spec {S : UInt64 → List Nat} {mm : Nat} {ref tgt : List Nat
   · next hmm =>
     have hnt := (not_congr (eqTest_iff mm ref tgt)).mpr hne
     rw [if_neg hnt] at h
-    cases hl : encLoop S mm hmm (padRef mm ref) ref.length tgt.toArray 0 0 0 [] 0 none with
+    cases hl : encLoop S mm hmm (padRef mm ref) ref.length tgt.toArray 0 0 0 [] none with
     | none => rw [hl] at h; simp at h
     | some res =>
       rw [hl] at h
       simp only [Option.map_some, Option.some.injEq] at h
       subst h
       refine ⟨?_, ?_, ?_⟩
-      · have := encLoop_decodes S mm hmm _ _ _ 0 0 0 [] 0 none res (inv_init _ _ _) hl
+      · have := encLoop_decodes S mm hmm _ _ _ 0 0 0 [] none res (inv_init _ _ _) hl
         simpa using this
       · intro P hP x hx
-        exact encLoop_tokAll P S mm hmm _ _ _ (by simpa using hP) 0 0 0 [] 0 none res (by simp) hl x
+        exact encLoop_tokAll P S mm hmm _ _ _ (by simpa using hP) 0 0 0 [] none res (by simp) hl x
           (by simpa using hx)
       · constructor
         · intro hnil
@@ -100,7 +100,7 @@ theorem encodeToks_spec {S : UInt64 → List Nat} {mm : Nat} {ref tgt : List Nat
           have hpos : 0 < tgt.toArray.size := by
             simp only [List.size_toArray]
             exact List.length_pos_iff.mpr htne
-          exact encLoop_ne_nil S mm hmm _ _ _ 0 0 0 [] 0 none res (Or.inr hpos) hl
+          exact encLoop_ne_nil S mm hmm _ _ _ 0 0 0 [] none res (Or.inr hpos) hl
             (by simpa using hnil)
         · intro ht
           subst ht
@@ -220,8 +220,8 @@ theorem encode_total (S : UInt64 → List Nat) (mm : Nat) (ref tgt : List Nat) (
   rw [dif_pos hmm]
   split
   · exact ⟨_, rfl⟩
-  · cases hl : encLoop S mm hmm (padRef mm ref) ref.length tgt.toArray 0 0 0 [] 0 none with
-    | none => exact absurd hl (encLoop_ne_none S mm hmm _ _ _ hS _ _ _ _ _ _)
+  · cases hl : encLoop S mm hmm (padRef mm ref) ref.length tgt.toArray 0 0 0 [] none with
+    | none => exact absurd hl (encLoop_ne_none S mm hmm _ _ _ hS _ _ _ _ _)
     | some res => exact ⟨_, rfl⟩
 
 /-- **C09 for the real encoder.** For every `min_match_len ≥ HASHING_STEP`, every reference and every
@@ -259,12 +259,12 @@ example : encodeToks (exactSupplier 5 (padRef 5 [0, 1, 2, 3, 0, 1, 2, 3, 2, 2]))
     decide
   unfold exactSupplier
   rw [hidx]
-  rw [encLoop_lit_nomatch (code := 1) (c := 0) _ _ _ _ _ _ _ _ _ _ _ _ (by decide) (by decide) (by decide) (by decide)]
-  rw [encLoop_lit_nomatch (code := 7) (c := 1) _ _ _ _ _ _ _ _ _ _ _ _ (by decide) (by decide) (by decide) (by decide)]
-  rw [encLoop_lit_nomatch (code := 15) (c := 3) _ _ _ _ _ _ _ _ _ _ _ _ (by decide) (by decide) (by decide) (by decide)]
-  rw [encLoop_lit_nomatch (code := 12) (c := 3) _ _ _ _ _ _ _ _ _ _ _ _ (by decide) (by decide) (by decide) (by decide)]
-  rw [encLoop_found (code := 1) (mpos := 4) (bck := 1) (fwd := 6) _ _ _ _ _ _ _ _ _ _ _ _ (by decide) (by decide) (by decide)]
-  rw [encLoop_done _ _ _ _ _ _ _ _ _ _ _ _ (by decide)]
+  rw [encLoop_lit_nomatch (code := 1) (c := 0) _ _ _ _ _ _ _ _ _ _ _ (by decide) (by decide) (by decide) (by decide)]
+  rw [encLoop_lit_nomatch (code := 7) (c := 1) _ _ _ _ _ _ _ _ _ _ _ (by decide) (by decide) (by decide) (by decide)]
+  rw [encLoop_lit_nomatch (code := 15) (c := 3) _ _ _ _ _ _ _ _ _ _ _ (by decide) (by decide) (by decide) (by decide)]
+  rw [encLoop_lit_nomatch (code := 12) (c := 3) _ _ _ _ _ _ _ _ _ _ _ (by decide) (by decide) (by decide) (by decide)]
+  rw [encLoop_found (code := 1) (mpos := 4) (bck := 1) (fwd := 6) _ _ _ _ _ _ _ _ _ _ _ (by decide) (by decide) (by decide)]
+  rw [encLoop_done _ _ _ _ _ _ _ _ _ _ _ (by decide)]
   decide
 
 example : codesOK [0, 1, 3, 3, 0, 1, 2, 3, 2, 2] ∧ [0, 1, 3, 3, 0, 1, 2, 3, 2, 2] ≠ [] := by decide
@@ -282,7 +282,7 @@ theorem lz_code30_not_decodable :
     rw [encodeExact_eq]
     unfold encode
     rw [encodeToks_loop _ _ _ _ (by decide) (by decide)]
-    rw [encLoop_done _ _ _ _ _ _ _ _ _ _ _ _ (by decide)]
+    rw [encLoop_done _ _ _ _ _ _ _ _ _ _ _ (by decide)]
     decide
   have h2 : decode 5 [] [95] = none := by
     unfold decode
